@@ -64,7 +64,9 @@ Theorem c31_commit_quorum_claimed_endorser_refuted :
 Proof. exact commit_quorum_claimed_endorser_refuted. Qed.
 Print Assumptions c31_commit_quorum_claimed_endorser_refuted.
 
-(** The receive path of the current source has the shape the model assumes. *)
+(** The receive path of the current source has the shape the model assumes: msg.Verify is called
+    with the sender's key and drops on error, each signed message type's own signature is verified
+    unconditionally (inventory of the Verify methods), nothing else is checked. *)
 Theorem c31_intake_as_modelled :
   recv_verifies_sender_sig = true /\ own_sigs_mandatory = true /\
   intake_checks_endorser_sigs = false /\ intake_checks_claimed_identity = false.
